@@ -200,7 +200,8 @@ class SymScalar:
         return func(*[conv(a) for a in args], **{k: conv(v) for k, v in kwargs.items()})
 
     def _bin(self, o, f, rev=False):
-        if isinstance(o, torch.Tensor) and not (isinstance(o, SymT) and o.meta.numel() == 1 and o.meta.dim() == 0):
+        if isinstance(o, torch.Tensor):
+            # let torch handle it (keeps the autograd graph of the tensor operand)
             return NotImplemented
         a, b = self.t, SymScalar.un(o)
         if rev:
